@@ -17,6 +17,9 @@ func (in *Interp) stdIntrinsic2(fn *ssa.Function, name string, args []Value) (Va
 	if v, ok := in.bigIntrinsic(name, args); ok {
 		return v, true
 	}
+	if v, ok := in.stringsIntrinsic(name, args); ok {
+		return v, true
+	}
 	switch name {
 	case "encoding/binary.Write":
 		return in.binaryWrite(args), true
